@@ -703,4 +703,28 @@ theorem ring_counter_beyond_witness :
     (rcIncrement ⟨0, 3⟩ (-1)).counter = -1 := by
   decide
 
+/-! ## 15. extension: igris::ring<T> over arbitrary histories -/
+
+/-- ring_typed_fifo_lossless: construct `igris::ring<T>(n)` for ANY `n` with
+`n + 1 < 2^32` (n = 0, 1, 2 included) and apply ANY interleaving of `push` /
+`emplace` and `tail(); pop()` that respects the contract of the typed ring
+(`runSpecT ≠ none`: push only with room, pop only when non-empty — the code does
+not test, `ring_push_full_pop_empty`), wrapping any number of times.  Then no
+access leaves the buffer, every `tail()` returns what the reference queue of
+capacity `n` delivers, the final ring stores the final reference queue, and
+pushed = delivered ++ stored, for every element type `T` (as values; see §13
+for object lifetime).  `ring<char>::read/write` are `ring_read`/`ring_write` on
+`(r, buffer)`: `ring_refines_fifo_partial` applies to them verbatim. -/
+theorem ring_typed_fifo_lossless {α : Type} (dflt : α) (n : Nat) (hn : n + 1 < 2 ^ 32)
+    (ops : List (TOp α)) (q' : List α) (outs : List (Option α))
+    (hspec : runSpecT n [] ops = some (q', outs)) :
+    ∃ t', runT (TRing.mk' dflt n) ops = some (t', outs) ∧ Abs t'.r t'.buf q' ∧
+      t'.r.size.toNat = n + 1 ∧ pushedT ops = deliveredT outs ++ q' := by
+  have ha := (ring_ctor_resize_reset_bounds dflt TRing.empty n hn).1
+  obtain ⟨t', e, hs, h'⟩ := runT_refines ops ha.2.2 (by rw [ha.1]; simpa using hspec)
+  have := specT_conserves n ops hspec
+  exact ⟨t', e, h', by rw [hs, ha.1], by simpa using this⟩
+
+example : (runSpecT 1 ([] : List Int) [.push 7, .pop, .push 8, .pop]).isSome := by decide
+
 end Igris.C03
